@@ -422,33 +422,47 @@ theorem invoke_TP (call : Storage → NodeId → Storage × Res Nat) (P : Prog)
       rw [heq] at h1
       exact (h0.trans h1).trans (TP.of_eq rfl rfl rfl rfl)
 
-theorem exec_TP (fuel : Nat) (P : Prog) (s : Storage) (id : NodeId) :
-    TP s (exec fuel P s id).1 := by
+theorem dropTu_TP (core : Storage → NodeId → Storage × Res (Bool × Nat))
+    (hc : ∀ s id, TP s (core s id).1) (s : Storage) (id : NodeId) : TP s (dropTu core s id).1 := by
+  unfold dropTu
+  have h1 := hc s id
+  split
+  · rename_i s1 b tu heq; rw [heq] at h1; exact h1
+  · rename_i s1 p heq; rw [heq] at h1; exact h1
+
+theorem pushTop_TP (s : Storage) (id : NodeId) : TP s (pushTop s id) := by
+  unfold pushTop
+  split
+  · exact ⟨rfl, rfl, [id], rfl, rfl⟩
+  · exact TP.refl _
+
+theorem execF_TP (core : Storage → NodeId → Storage × Res (Bool × Nat))
+    (hc : ∀ s id, TP s (core s id).1) (s : Storage) (id : NodeId) : TP s (execF core s id).1 := by
+  unfold execF
+  have h1 := (pushTop_TP s id).trans (hc (pushTop s id) id)
+  split
+  · rename_i s1 b tu heq; rw [heq] at h1; exact h1.trans (regDep_TP ..)
+  · rename_i s1 p heq; rw [heq] at h1; exact h1
+
+theorem upToDate_TP (fuel : Nat) (P : Prog) (s : Storage) (id : NodeId) :
+    TP s (upToDate fuel P s id).1 := by
   induction fuel generalizing s id with
   | zero => exact TP.refl _
   | succ fuel ih =>
-    have hcall : ∀ s id, TP s (callVia (exec fuel P) s id).1 := callVia_TP _ ih
-    have hchk : ∀ s d, TP s (depChanged (exec fuel P) s d).1 := depChanged_TP _ ih
-    have h0 : TP s (if s.stack.isEmpty then
-        { s with topCalls := s.topCalls ++ [id], pushes := s.pushes ++ [id] } else s) := by
-      split
-      · exact ⟨rfl, rfl, [id], rfl, rfl⟩
-      · exact TP.refl _
-    simp only [exec]
-    generalize (if s.stack.isEmpty then
-        { s with topCalls := s.topCalls ++ [id], pushes := s.pushes ++ [id] } else s) = s0 at h0
-    refine h0.trans ?_
-    have hupd : ∀ (s : Storage) d n tu, TP s (regDep { s with derived := d } n tu) := fun s d n tu =>
-      (TP.of_eq (s' := { s with derived := d }) rfl rfl rfl rfl).trans (regDep_TP ..)
+    have hcall : ∀ s id, TP s (callVia (execF (upToDate fuel P)) s id).1 := callVia_TP _ (execF_TP _ ih)
+    have hchk : ∀ s d, TP s (depChanged (dropTu (upToDate fuel P)) s d).1 := depChanged_TP _ (dropTu_TP _ ih)
+    simp only [upToDate]
+    have hupd : ∀ (s : Storage) d, TP s { s with derived := d } := fun s d =>
+      TP.of_eq (s' := { s with derived := d }) rfl rfl rfl rfl
     split
     · rename_i rev hrev
       split
-      · exact regDep_TP ..
-      · have h1 := (setTv_TP s0 id s0.epoch).trans
-          (anyDep_TP _ hchk rev.deps (setTv s0 id s0.epoch))
+      · exact TP.refl _
+      · have h1 := (setTv_TP s id s.epoch).trans
+          (anyDep_TP _ hchk rev.deps (setTv s id s.epoch))
         split
         · rename_i s1 p heq; rw [heq] at h1; exact h1
-        · rename_i s1 heq; rw [heq] at h1; exact h1.trans (regDep_TP ..)
+        · rename_i s1 heq; rw [heq] at h1; exact h1
         · rename_i s1 heq; rw [heq] at h1
           have h2 := invoke_TP _ P hcall s1 id
           split
@@ -460,11 +474,14 @@ theorem exec_TP (fuel : Nat) (P : Prog) (s : Storage) (id : NodeId) :
             · split
               · exact h3.trans (hupd ..)
               · exact h3.trans (hupd ..)
-    · have h2 := invoke_TP _ P hcall s0 id
+    · have h2 := invoke_TP _ P hcall s id
       split
       · rename_i s2 p heq2; rw [heq2] at h2; exact h2
       · rename_i s2 v fr heq2; rw [heq2] at h2
         exact h2.trans (hupd ..)
+
+theorem exec_TP (fuel : Nat) (P : Prog) (s : Storage) (id : NodeId) :
+    TP s (exec fuel P s id).1 := execF_TP _ (upToDate_TP fuel P) s id
 
 theorem setSource_TP (s : Storage) (k : Key) (v : Nat) : TP s (setSource s k v) := by
   unfold setSource
